@@ -279,7 +279,63 @@ def match_known(known, fam, case, obs, pred):
     return None
 
 
-KNOWN_PREDICATES = {}
+# ---- D73: caller-supplied ambiguous unit names (mirror of Proofs/UnitsStringRound.v names_unambiguous) ----
+
+def _c16_bytes(x):
+    return x[1].encode("latin-1") if isinstance(x, tuple) else b""
+
+
+def _c16_ends_with_space(b):
+    """does the byte string END with a character strings.TrimSpace trims (Base/Str.v head_sp usp2r usp3r on the reversed name)"""
+    n = len(b)
+    if n >= 1 and (b[-1] == 32 or 9 <= b[-1] <= 13):
+        return True
+    if n >= 2 and b[-2] == 0xC2 and b[-1] in (0x85, 0xA0):
+        return True
+    if n >= 3:
+        c, d, e = b[-3], b[-2], b[-1]
+        if c == 0xE1 and d == 0x9A and e == 0x80:
+            return True
+        if c == 0xE2 and ((d == 0x80 and (0x80 <= e <= 0x8A or e in (0xA8, 0xA9, 0xAF))) or (d == 0x81 and e == 0x9F)):
+            return True
+        if c == 0xE3 and d == 0x80 and e == 0x80:
+            return True
+    return False
+
+
+def c16_names_unambiguous(units):
+    """units: the parsed `(units (unit ss sp ls lp) ((k (unit ...)) ...))` descriptor."""
+    dig = lambda c: 48 <= c <= 57
+    resp = lambda c: c in (32, 9, 10, 12, 13)
+    keyed = [(1, [_c16_bytes(x) for x in units[1][1:5]])] + [(int(m[0]), [_c16_bytes(x) for x in m[1][1:5]]) for m in units[2]]
+    names = [x for _, ns in keyed for x in ns]
+    for x in names:
+        if not x or dig(x[0]) or resp(x[0]) or (x[0] == 46 and (len(x) == 1 or dig(x[1]))):
+            return False
+        if _c16_ends_with_space(x):
+            return False
+    for x in names:
+        for y in names:
+            if len(y) > len(x) and y.startswith(x) and (dig(y[len(x)]) or resp(y[len(x)])):
+                return False
+    for k1, n1 in keyed:
+        for k2, n2 in keyed:
+            if k1 != k2 and set(n1) & set(n2):
+                return False
+    return True
+
+
+def c16_ambiguous_names(m, case, obs, pred):
+    """D73: an integer formatted with a definition whose names are NOT unambiguous does not read back - exactly as the
+    faithful model predicts (C16_roundtrip_arbitrary_refuted, C16_unambiguous_clauses_needed,
+    C16_roundtrip_unicode_trail_refuted).  Only fmtint cases, only when the implementation agrees with the model."""
+    pl = case_payload(case)
+    if not isinstance(pl, list) or pl[0] != "fmtint" or obs != pred:
+        return False
+    return not c16_names_unambiguous(pl[1])
+
+
+KNOWN_PREDICATES = {"c16_ambiguous_names": c16_ambiguous_names}
 
 PROPS = {
     "C16": {
@@ -293,9 +349,15 @@ PROPS = {
                 "mantissas, formatted short+long with FormatShortFloat/FormatLongFloat and re-parsed with ParseFloat (direct "
                 "tolerance check 1e-6 relative), float strings through ParseFloat; the schema entry points: "
                 "IntSchema/FloatSchema(units).Unserialize next to ParseInt/ParseFloat on well-formed, near-miss and "
-                "number-look-alike strings (exponents, hex, inf/nan, signs, leading/trailing point, digit separators); distinct by "
+                "number-look-alike strings (exponents, hex, inf/nan, signs, leading/trailing point, digit separators); Unicode "
+                "white space (strings.TrimSpace trims unicode.IsSpace on the UTF-8 text, the grammar's \\s is ASCII-only): for every "
+                "definition blank texts, texts padded outside with NBSP / NEL / U+3000 / U+2003 / U+2028 / U+1680 / \\v, the same "
+                "characters BETWEEN count and unit, lone bytes 0xA0 / 0x85 / 0xC2 and U+200B / U+180E / U+FEFF (never trimmed); "
+                "definitions whose names start with or contain such characters (must round-trip) and D73 witnesses whose names END "
+                "in them (known finding, class predicate c16_ambiguous_names); distinct by "
                 "case text; non-trivial = uses a multiplier (integer formatting) or is a float / parse / unserialize input",
-        "assumptions": ["ASCII inputs for strings.TrimSpace", "floats formatted are non-negative, finite and below 2^53 x 2^40"],
+        "assumptions": ["unit names are valid UTF-8 (regexp.MustCompile panics on a name that is not: not modelled)",
+                        "floats formatted are non-negative, finite and below 2^53 x 2^40"],
         "level_text": "Theorems (unbounded): the greedy decomposition printed by the formatter sums back to n for any positive "
                       "multipliers; the parser's accumulator returns exactly the sum of count x multiplier or an error when a product or "
                       "partial sum leaves int64. Theorem (finite domain, by vm_compute): format-then-parse is the identity on the built-in "
@@ -309,7 +371,7 @@ PROPS = {
                       "(optional spaces; per multiplier in strictly descending order and last the base unit: nothing, or count, spaces, "
                       "one of the four declared names) and n is exactly the sum of count x multiplier with every partial sum in int64; "
                       "(c) C16_roundtrip_partial - for every definition satisfying the boolean names_unambiguous (name heads are not "
-                      "digits/spaces/'.'+digit, names do not end in a trimmed byte, no name is a proper prefix of another that continues "
+                      "digits/spaces/'.'+digit, names do not end with a white-space character strings.TrimSpace trims - ASCII or Unicode in UTF-8 -, no name is a proper prefix of another that continues "
                       "with a digit or space, different units share no name) and EVERY n in [0, max int64]: ParseInt(FormatShortInt n) = n "
                       "and ParseInt(FormatLongInt n) = n; (d) C16_roundtrip_builtin_all - the five built-in sets dumped from the live SDK "
                       "are unambiguous, so their round trip holds on all of [0, max int64]; (e) C16_roundtrip_arbitrary_refuted + one "
@@ -320,6 +382,11 @@ PROPS = {
                       "sets) ParseInt s = n IF AND ONLY IF the trimmed input is a non-empty tokenisation whose counts, products and "
                       "partial sums are int64 and whose sum is n: every well-formed string is accepted with the right number, every "
                       "other string is rejected (C16_tokens_determined: the tokens are a function of the string); "
+                      "(f') C16_trim_space_blank_iff / C16_trim_space_id / C16_roundtrip_unicode_trail_refuted - the model's TrimSpace is "
+                      "Go's (Unicode white space, UTF-8 aware; checked exhaustively against strings.TrimSpace on all byte strings of "
+                      "length <= 3 and all code points): the trimmed text is empty iff the text is a sequence of white-space "
+                      "characters, a text starting with a digit and not ending in one is untouched, and a name ending in U+00A0 "
+                      "breaks the round trip in model and SDK alike; "
                       "(g) C16_parse_float_sound / C16_parse_float_of_int - a successful ParseFloat is the float accumulation over a "
                       "tokenisation of the input, and wherever ParseInt answers n ParseFloat answers float64(n). "
                       "Partial: names_unambiguous is sufficient, not proved weakest; the float round trip within tolerance is carried by "
